@@ -36,17 +36,35 @@ impl From<RequestConfig> for TransformConfig {
     }
 }
 
+// Nested elements are processed recursively (up to the configured depth limit), and
+// tokio worker threads only have a 2MiB stack, which an unoptimised build can exhaust
+// before that limit is reached. Each transform therefore runs on its own thread, with
+// the same stack size as the main thread the `svgdx` command line program uses.
+const TRANSFORM_STACK_SIZE: usize = 8 * 1024 * 1024;
+
+fn transform_on_thread(input: String, config: TransformConfig) -> Result<String, String> {
+    std::thread::Builder::new()
+        .stack_size(TRANSFORM_STACK_SIZE)
+        .spawn(move || {
+            transform_str(input, &config)
+                .and_then(|output| {
+                    if output.is_empty() {
+                        // Can't build a valid image/svg+xml response from empty string.
+                        Err(SvgdxError::from("Empty response"))
+                    } else {
+                        Ok(output)
+                    }
+                })
+                .map_err(|e| e.to_string())
+        })
+        .map_err(|e| e.to_string())?
+        .join()
+        .map_err(|_| "transform failed unexpectedly".to_string())?
+}
+
 async fn transform(config: Query<RequestConfig>, input: String) -> impl IntoResponse {
     let Query(config) = config;
-    transform_str(input, &config.into())
-        .and_then(|output| {
-            if output.is_empty() {
-                // Can't build a valid image/svg+xml response from empty string.
-                Err(SvgdxError::from("Empty response"))
-            } else {
-                Ok(output)
-            }
-        })
+    transform_on_thread(input, config.into())
         .map(|output| {
             Response::builder()
                 .header("Content-Type", "image/svg+xml")
